@@ -112,7 +112,7 @@ class C18(F.PropCheck):
     IN = {'MAP': 0, 'USERBIN': 1, 'ORACLE': 2, 'FAILS': 3, 'HEAP': 4, 'FLASHINIT': 5, 'START': 6, 'SEG': 7, 'DISC': 8, 'ARENA': 9,
           'SEGFILL': 10, 'NOHALT': 11}
     OUT = {0: 'BASE', 1: 'NOUPDATE', 2: 'FLAG', 3: 'ERASE', 4: 'WRITE', 5: 'VERIFY', 6: 'UPGRADEREBOOT', 7: 'RESTART', 8: 'FAULT'}
-    quick_cases = 2500; thorough_cases = 30000
+    quick_cases = 2000; thorough_cases = 30000
     trusted_extra = ['C18 driver harness/drv/c18.c + wrapper harness/wrap/c18_update_wrap.c: real supla_update.c driven through '
                      'init/check_updates/url_result/delay timer/connect/recv_cb/disconnect_cb; system_upgrade_flag_set, '
                      'system_upgrade_reboot, rsa_sha256_verify and malloc interposed by macro in the wrapper TU',
